@@ -124,6 +124,7 @@ def build(tier="quick", seed=0):
     b.replayer(f"{worker.key}::*left_behind*", _replay_left_behind)
     b.replayer(f"{worker.key}::*", _replay_worker)
     b.replayer(f"{FMP}::multiprocessing_run#journal_creation*", _replay_journal_kill)
+    b.replayer(f"{FMP}::multiprocessing_run#journal::roundtrip*", _replay_roundtrip)
     b.replayer(f"{FMP}::multiprocessing_run#*", _replay_restart)
     b.assume("DECIDED on a ghost file system (event order = program order of the real statements): kill points between any two file-system events of one worker call (directory, result file, success marker) and of the journal creation, including the middle of a write. NOT DECIDED: process schedules, pool sizes 4..16, a kill of the parent while workers run on, subsets of failing cases across a real restart (bounded native run only), partially written .npz files, the log appends of the restart branch - no contract on a single call can state them and no verifier for OS effects is available")
     b.assume("ghost file system: open(path,'w'), os.makedirs and np.savez create the named path; the event order of one worker call is the program order")
@@ -171,6 +172,11 @@ def journal(b, parent, seed, tier):
                     import math
                     lo_, hi_ = rnd.choice([1.0 / 3.0, math.log10(3.3e13) - 13.0, rnd.uniform(0, 3)]), rnd.choice([math.log10(3.3e13), 20.0 / 3.0, rnd.uniform(4, 9)])
                 cases.append(MI("viscosity", "Viscosity [Pa s]", lo_, hi_, rnd.choice(["log", "linear"]), mi, rnd.randint(2, 9)))
+    # values whose text form is special (zero, negative zero, exponent notation, many digits): always included, whatever the seed
+    for container in (list, tuple):
+        for mi in ((0.0,), (0.0, 1.5), (-0.0, 2.0, 0.0), (1e-07, 1e+22), (123456789.12345678, -3.0e-300, 5.0)):
+            cases.append(MI("viscosity", "Viscosity [Pa s]", 0.0, 1e+22, "log", container(mi), 5))
+            cases.append(MI("x", "x", -1e-07, 0.0, "linear", container(mi), 2))
     n_ok = 0
     fails = []
     for c in cases:
@@ -747,6 +753,44 @@ def _replay_left_behind(ob, res):
         rec["confirmed"] = any(v_ != "ok" for v_ in out["result"].values())
     except Exception:
         rec["confirmed"] = "exception" in out
+    return rec
+
+
+def _replay_roundtrip(ob, res):
+    """native: the journal writer and reader loops of the IMPORTED multiprocessing_run (inspect.getsource under /venv) on the failing must_include"""
+    from tpv import native
+    mi = (res.get("model") or {}).get("must_include")
+    if mi is None:
+        return dict(replayed=False, reason="no failing input recorded")
+    code = r'''
+import ast, inspect, textwrap
+from collections import namedtuple
+import TidalPy.utilities.multiprocessing.multiprocessing as M
+node = ast.parse(textwrap.dedent(inspect.getsource(M.multiprocessing_run))).body[0]
+writer = [n for n in ast.walk(node) if isinstance(n, ast.For) and ast.unparse(n.iter) == "input_data" and any("mp_file.write" in ast.unparse(s) for s in n.body)][0]
+reader = [n for n in ast.walk(node) if isinstance(n, ast.For) and ast.unparse(n.iter) == "lines"][0]
+ns = {}
+exec("def _write(input_data, mp_file):\n" + "\n".join("    " + l for l in ast.unparse(writer).split("\n")), ns)
+exec("def _read(lines, MultiprocessingInput):\n    input_data_to_use = list()\n    start_input_found = True\n" + "\n".join("    " + l for l in ast.unparse(reader).split("\n")) + "\n    return input_data_to_use", ns)
+MI = namedtuple("MultiprocessingInput", ("name", "nice_name", "start", "end", "scale", "must_include", "n"))
+class F:
+    def __init__(self): self.lines = []
+    def write(self, s): self.lines.append(s)
+mi = eval(args["must_include"])
+f = F(); ns["_write"]([MI("viscosity", "Viscosity [Pa s]", 0.0, 9.0, "log", mi, 5)], f)
+try:
+    back = ns["_read"](f.lines, MI)
+    result = {"journal_line": f.lines, "given": list(mi), "read_back": list(back[0].must_include) if back else None}
+except Exception as e:
+    result = {"journal_line": f.lines, "given": list(mi), "raised": type(e).__name__ + ": " + str(e)}
+'''
+    out = native.run(dict(code=code, args=dict(must_include=mi)), timeout=120)
+    rec = dict(replayed=True, failing_input=mi, native=out)
+    try:
+        r_ = out["result"]
+        rec["confirmed"] = ("raised" in r_) or r_["read_back"] != r_["given"]
+    except Exception:
+        rec["confirmed"] = False
     return rec
 
 
